@@ -457,4 +457,9 @@ EXPLANATION = (
     'sites is classified (cancelled on a shutdown path / done-gated / reaches no user callback). C17.LISTENER (decided): listener '
     'and timer-handle pairing on all exits. Not decided: behaviour over hours of virtual time and in-flight states [X].'
 )
+EXPLANATION_ADDENDUM = (
+    ' C17.GOODBYE also requires the closing goodbye routine to examine the registry again after its last suspension and async_close not to suspend between it and the closing of the gate. C17.DEFERRED (necessary): deferral timers are cancelled together with their packets.'
+)
+EXPLANATION = EXPLANATION + EXPLANATION_ADDENDUM
+
 RULES = [gate, goodbye, timers, listener, deferred17]
